@@ -59,12 +59,20 @@ Ctor(n, kw) ==
        /\ ev' = [op |-> "Ctor", n |-> n, kw |-> kw, out |-> Outcome(r), errpath |-> r.err.path,
                  repl |-> IF r.ok /\ Built(n) THEN {<<>>} ELSE {}]
 
+\* A failing tree load applies the keys that precede the rejected one (the code is not atomic
+\* there, and no listed property says it must or must not be): an implementation that applies
+\* nothing on failure is allowed as well.  The same holds for the in-place list / dict
+\* operations that take several items (extend, +=, update with keywords).
 Load(n, tree) ==
     /\ Built(n)
     /\ LET r == LoadTree(S, cfgs[n], tree, <<>>, TRUE) IN
-       /\ cfgs' = [cfgs EXCEPT ![n] = r.cfg]
-       /\ ev' = [op |-> "Load", n |-> n, tree |-> tree, out |-> Outcome(r), errpath |-> r.err.path,
-                 repl |-> r.repl, vlog |-> r.log]
+       \/ /\ cfgs' = [cfgs EXCEPT ![n] = r.cfg]
+          /\ ev' = [op |-> "Load", n |-> n, tree |-> tree, out |-> Outcome(r), errpath |-> r.err.path,
+                    repl |-> r.repl, vlog |-> r.log, atomic |-> FALSE]
+       \/ /\ ~r.ok
+          /\ cfgs' = cfgs
+          /\ ev' = [op |-> "Load", n |-> n, tree |-> tree, out |-> Outcome(r), errpath |-> r.err.path,
+                    repl |-> {}, vlog |-> r.log, atomic |-> TRUE]
 
 Reset(n, pk) ==
     /\ Built(n)
@@ -76,7 +84,8 @@ Reset(n, pk) ==
 COp(n, pk, o) ==
     /\ Built(n)
     /\ LET r == ContainerOp(S, cfgs[n], pk[1], pk[2], o) IN
-       /\ cfgs' = [cfgs EXCEPT ![n] = r.cfg]
+       /\ \/ cfgs' = [cfgs EXCEPT ![n] = r.cfg]
+          \/ ~r.ok /\ cfgs' = cfgs             \* (all-or-nothing is allowed too)
        /\ ev' = [op |-> "COp", n |-> n, p |-> pk[1], k |-> pk[2], o |-> o, out |-> Outcome(r),
                  errpath |-> r.err.path, repl |-> {}]
 
@@ -92,8 +101,10 @@ CopyTree(n, m) ==
     /\ Built(n) /\ Built(m) /\ n # m
     /\ LET tree == ToTree(S, cfgs[n], FALSE, NoMask)
            r == LoadTree(S, cfgs[m], tree, <<>>, TRUE) IN
-       /\ cfgs' = [cfgs EXCEPT ![m] = r.cfg]
-       /\ ev' = [op |-> "CopyTree", n |-> m, src |-> n, out |-> Outcome(r), errpath |-> r.err.path, repl |-> r.repl]
+       \/ /\ cfgs' = [cfgs EXCEPT ![m] = r.cfg]
+          /\ ev' = [op |-> "CopyTree", n |-> m, src |-> n, out |-> Outcome(r), errpath |-> r.err.path, repl |-> r.repl]
+       \/ /\ ~r.ok /\ cfgs' = cfgs
+          /\ ev' = [op |-> "CopyTree", n |-> m, src |-> n, out |-> Outcome(r), errpath |-> r.err.path, repl |-> {}]
 
 \* cfg.validate(collect_errors=True): returns a list instead of raising
 CheckCollect(n) ==
